@@ -123,7 +123,8 @@ PostSlotClauses(pre, rec, twom, zero, mscfield) ==
   \cup (IF failure \/ rec.rL_step <= pre.rL_lim THEN {} ELSE {"C05.StepWithinLimit"})
   \* named deviation F-MSC-1: with Urban MSC *and* a magnetic field the lateral displacement is added
   \* to the end of the curved path and the straight-line displacement may exceed the reported true
-  \* path length slightly; scoped to runs with both switched on and an excess below 2%
+  \* path length; scoped to runs with both switched on and chord <= sqrt(2) * step (chord <= g + d with
+  \* g^2 + d^2 <= step^2: the bound that follows from the mechanism)
   \cup (IF failure \/ rec.rL_chordlo <= rec.rL_step THEN {}
         ELSE IF mscfield /\ rec.rL_chordlo2 <= rec.rL_step THEN {"C05.KNOWN.MscFieldDisplacementExceedsStep"}
         ELSE {"C05.StepNotShorterThanChord"})
